@@ -383,6 +383,9 @@ var c09To = jid.MustParse("svc.example.net")
 // c09Hist is the history handler registered in the current run's multiplexer.
 var c09Hist *history.Handler
 
+// c09CloseAfterOne: drawn per run for the close-early helper.
+var c09CloseAfterOne bool
+
 var c09Helpers_ = []c09Helper{
 	{"disco.GetInfo", func(ctx context.Context, s *xmpp.Session) error {
 		i, err := disco.GetInfo(ctx, "node", c09To, s)
@@ -517,6 +520,15 @@ var c09Helpers_ = []c09Helper{
 		simrt.Sleep(3 * time.Second)
 		return drain(it.Next, it.Err, it.Close)
 	}},
+	{"history.Handler.Fetch-close-early", func(ctx context.Context, s *xmpp.Session) error {
+		// the application has seen enough after the first result (or before any) and closes the iterator
+		it := c09Hist.Fetch(ctx, history.Query{ID: "q4"}, c09To, s)
+		simrt.Sleep(500 * time.Millisecond)
+		if simrt.Cur() != nil && c09CloseAfterOne {
+			it.Next()
+		}
+		return it.Close()
+	}},
 	{"UnmarshalIQ", func(ctx context.Context, s *xmpp.Session) error {
 		var v struct {
 			XMLName xml.Name `xml:"jabber:iq:version query"`
@@ -561,6 +573,7 @@ func c09Helpers(rc *RC) {
 	}
 	m, _, hh, _, _ := c09Mux(rc, e, e.NS)
 	c09Hist = hh
+	c09CloseAfterOne = ch.Chance("workload", 1, 2)
 	serveT := e.Serve(m)
 	h := c09Helpers_[ch.Int("workload", len(c09Helpers_))]
 	// the peer answers every get/set IQ with a drawn reply
@@ -575,7 +588,7 @@ func c09Helpers(rc *RC) {
 	}
 	silentAfterExtra := false
 	if strings.HasPrefix(h.name, "history.Handler.Fetch") && ch.Chance("workload", 2, 3) {
-		qid := map[string]string{"history.Handler.Fetch": "q2", "history.Handler.Fetch-slow-consumer": "q3"}[h.name]
+		qid := map[string]string{"history.Handler.Fetch": "q2", "history.Handler.Fetch-slow-consumer": "q3", "history.Handler.Fetch-close-early": "q4"}[h.name]
 		extra = strings.Repeat(strings.Replace(c09Incoming[17], "queryid='q1'", "queryid='"+qid+"'", 1), 1+ch.Int("workload", 3))
 		// the archive may take its time with the final result
 		silentAfterExtra = ch.Chance("workload", 1, 2)
